@@ -30,6 +30,7 @@ import re
 from ..translate import c20 as tr
 
 PROPERTY = "C20"
+CASE_TIMEOUT = 300  # s of wall clock per case in pool workers (runner watchdog): a case that spins forever is a verdict, not exit 2
 THEOREM_MODULE = "NemoVerif.Theorems.C20"
 RULE = ("fn: batches of config ids built from path-ish fragments (separators, dot runs, %2e, NUL, unicode look-alikes, absolute "
         "paths, root-relative escapes such as ../<root>2/x, empty, very long) over 12 roots (absolute, relative, trailing slash, "
